@@ -590,6 +590,20 @@ def gen_zipf_batches(rng, cfg, c):
   return batches
 
 
+def gen_wide_batch(rng, cfg, c):
+  """one batch generated WITHOUT knowing its position in a stream (harness/agg/histories.py feeds every add() of a
+  history from the same generator): cut + 1 or more "hot" items, three times each, from one of five disjoint windows
+  of the vocabulary, and k "steady" items twice - below the cut in every batch, the global top after two batches
+  with different windows."""
+  k, n = cfg['k'], cfg['n']
+  cut = c * k
+  width = cut + rng.choice([1, 1, 2, 4])
+  w0 = rng.randrange(5) * (cut + 4)
+  items = [w0 + i for i in range(width) for _ in range(3)] + [990 + j for j in range(k) for _ in range(2)]
+  rng.shuffle(items)
+  return [_decorate(rng, witem(j, n)) for j in items]
+
+
 def gen_wide_streams(rng, count):
   """(arm, cfg, c, batches): deterministic head (every size constant x forward late bloomer just past the cut, k = 1
   and 2), then random arms."""
